@@ -165,15 +165,18 @@ Definition sync_bad (now : Z) (ls : list (N * list N)) (all_trusted all_eligible
       else entry_same st0 stF c && Nat.eqb n 0
     in if ok then [] else [c]) st0.
 
-(* exactly one of the candidate peers answers "closest" for each CID (peers agreeing on a trusted peerset) *)
-Definition one_closest_ok (members : list N) (all_trusted : bool) (cs : list cobs) : bool :=
-  if negb all_trusted then true else
+(* exactly one of the mutually trusting candidate peers answers "closest" for each CID (peers agreeing on the peerset and
+   on whom they trust; members nobody trusts - followers in the usual layout - are no candidates and their own answers
+   are not counted) *)
+Definition one_closest_ok (members : list N) (trusted : N -> bool) (cs : list cobs) : bool :=
   forallb (fun o => let '(_, excl, c, _) := o in
-     let group := filter (fun o' => let '(_, excl', c', _) := o' in optN_eqb excl excl' && (c =? c')%N) cs in
-     let cands := filter (fun p => negb (match excl with Some x => (p =? x)%N | None => false end)) members in
+     let group := filter (fun o' => let '(s', excl', c', _) := o' in trusted s' && optN_eqb excl excl' && (c =? c')%N) cs in
+     let cands := filter (fun p => trusted p && negb (match excl with Some x => (p =? x)%N | None => false end)) members in
      (* only when every candidate was asked *)
      if negb (Nat.eqb (length group) (length cands)) then true
-     else Nat.eqb (length (filter (fun o' => snd o') group)) 1) cs.
+     else match cands with [] => true | _ => Nat.eqb (length (filter (fun o' => snd o') group)) 1 end) cs.
+
+Definition step_self (s : astep) : N := fst (fst (fst (fst (fst s)))).
 
 Definition check_case (x : case) : list (N * N * N) :=
   let '(id, (dmin, dmax, rv, hpt, hct, members, untrusted, ms, ls, st0l, (kind, f, steps), cs)) := x in
@@ -184,14 +187,19 @@ Definition check_case (x : case) : list (N * N * N) :=
   let stF := final_state st0 steps in
   let all_trusted := forallb trusted members in
   let meq := runs_eqb dmin dmax rv hp hc members trusted e kind f st0 steps && forallb (closest_eqb hp hc members trusted) cs in
-  let all_eligible := negb (match steps with [] => true | _ => false end)
-                      && forallb (fun s => negb (step_fol s) && negb ((kind <? 3)%N && step_norep s)) steps
+  (* members that the others do not trust take no part when they run as followers / with re-pinning disabled (the usual
+     layout): the clauses about "exactly one" then speak about the mutually trusting members *)
+  let idle := fun s => step_fol s || ((kind <? 3)%N && step_norep s) in
+  let all_trusted := all_trusted || forallb (fun s => trusted (step_self s) || idle s) steps in
+  let tsteps := filter (fun s => trusted (step_self s)) steps in
+  let all_eligible := negb (match tsteps with [] => true | _ => false end)
+                      && forallb (fun s => negb (idle s)) tsteps
                       && negb (kind =? 1)%N && all_trusted
                       (* every candidate peer ran *)
                       && (if (kind =? 2)%N then true
-                          else seteqb (map (fun s => fst (fst (fst (fst (fst s))))) steps)
-                                      (filter (fun p => negb ((kind <? 2)%N && (p =? f)%N)) members)) in
-  let global := nodupb (akeys stF) && idle_ok kind st0 steps && one_closest_ok members all_trusted cs
+                          else seteqb (map step_self tsteps)
+                                      (filter (fun p => trusted p && negb ((kind <? 2)%N && (p =? f)%N)) members)) in
+  let global := nodupb (akeys stF) && idle_ok kind st0 steps && one_closest_ok members trusted cs
                 && (if (kind <? 3)%N then same_keys st0 stF else subsetb (akeys stF) (akeys st0)) in   (* nothing removed by re-pinning *)
   let bad := if (kind <? 3)%N then repin_bad 0 rv ms all_trusted all_eligible f st0 stF steps
              else sync_bad 0 ls all_trusted all_eligible st0 stF steps in
